@@ -151,5 +151,94 @@ def run(ctx):
     # ---- R14.4 export panic freedom
     roots = pr.roots_by_short(F, ("proto::ProtoExporter::export",))
     pr.rule_panic_free(ctx, "R14.4", roots, "Library::to_proto", scope_prefixes=["layout21raw::"], floor=1)
+    rule_context_purpose(ctx, "R14.9")
     ctx.assume("rectangle corner normalisation (p0/p1 -> lower-left + size) is value-level; numeric ranges are checked conversions")
     ctx.assume("from_proto's unwraps on absent optional sub-messages are outside the statement (it promises errors only for undefined references)")
+
+
+# ---- R14.9 which purpose a view's shapes are exported under ------------------------------------------------------
+# The raw model keeps an abstract's port shapes and blockages per *layer*; the purpose half of the exported
+# (number, purpose) pair is supplied by the exporter.  Audited from layout21raw/src/data.rs (`LayerPurpose`: "Pin" =
+# pins / ports, "Obstruction" = blockages): each context below must reach `export_layerspec` with exactly that purpose,
+# directly or through helpers of the same exporter that pass their own purpose parameter along.
+PURPOSE_OF_CONTEXT = {
+    "proto::ProtoExporter::export_abstract_port": "Pin",
+    "proto::ProtoExporter::export_abstract_blockages": "Obstruction",
+}
+
+
+def _purpose_operand(F, f, b, o, binding):
+    """variant name of the LayerPurpose behind operand `o`: a promoted constant, a local aggregate, or a parameter of f"""
+    from analysis.mir import op_place, op_const
+    for _ in range(12):
+        o = b.resolve_copy(o)
+        pl = op_place(o)
+        if pl is None:
+            c = op_const(o)
+            if c and "promoted" in c and isinstance(c["promoted"], int) and c["promoted"] < len(f.promoted):
+                for blk in f.promoted[c["promoted"]]["blocks"]:
+                    for st in blk["st"]:
+                        rv = st.get("rv", {})
+                        if rv.get("k") == "agg" and rv.get("id", "").endswith("LayerPurpose"):
+                            return rv.get("variant", "?")
+            return "?"
+        l = pl["l"]
+        if 1 <= l <= b.argc:
+            return binding.get(l, "param")
+        ds = b.defs.get(l, [])
+        if len(ds) != 1:
+            return "?"
+        d = ds[0]
+        if d[2] != "assign":
+            return "?"
+        rv = d[3]["rv"]
+        if rv["k"] == "ref":
+            o = {"cp": {"l": rv["p"]["l"], "p": []}}
+            continue
+        if rv["k"] == "agg" and rv.get("id", "").endswith("LayerPurpose"):
+            return rv.get("variant", "?")
+        if rv["k"] == "use":
+            o = rv["o"]
+            continue
+        return "?"
+    return "?"
+
+
+def _purposes_reached(F, f, binding, depth, seen):
+    out = []
+    b = Body(f)
+    impl = f.id.rsplit("::", 1)[0]
+    for bi, t in b.calls():
+        cid = callee_id(t) or ""
+        if cid.endswith("::export_layerspec") and len(t["args"]) > 2:
+            out.append((_purpose_operand(F, f, b, t["args"][2], binding), b.site(bi)))
+        elif cid.startswith(impl + "::") and cid in F.fns and depth < 3 and cid not in seen:
+            g = F.fns[cid]
+            nb = {}
+            for j, a in enumerate(t["args"]):
+                lt = g.inputs[j].get("s", "") if j < len(g.inputs) else ""
+                if "LayerPurpose" in lt:
+                    nb[j + 1] = _purpose_operand(F, f, b, a, binding)
+            out += _purposes_reached(F, g, nb, depth + 1, seen | {cid})
+    return out
+
+
+def rule_context_purpose(ctx, rid):
+    ctx.rule(rid, "port shapes of an abstract are exported under the layer's Pin purpose and blockages under its Obstruction purpose (the raw model stores them per layer; the exporter supplies the purpose), through whatever helper the exporter uses")
+    F = ctx.F
+    n = 0
+    for f in F.fns.values():
+        want = PURPOSE_OF_CONTEXT.get(f.short)
+        if want is None or f.kind == "Closure":
+            continue
+        n += 1
+        got = _purposes_reached(F, f, {}, 0, {f.id})
+        key = "%s/purpose" % f.short
+        bad = [(p, s) for p, s in got if p != want]
+        if not got:
+            ctx.violation(rid, key, "%s never reaches export_layerspec: its shapes are exported without the %s layer/purpose pair" % (f.short, want), "%s:%d" % (f.sp[0], f.sp[1]), key)
+        elif bad:
+            ctx.violation(rid, key, "%s exports its shapes under purpose %s (at %s) instead of %s: the layer/purpose numbers of an abstract's %s change on the way through the schema" % (f.short, sorted(set(p for p, _ in bad)), bad[0][1], want, "ports" if want == "Pin" else "blockages"), bad[0][1], key)
+        else:
+            ctx.ok(rid, key, "reaches export_layerspec with %s only (%d call sites)" % (want, len(got)))
+    ctx.floor(rid, "purpose_contexts", n, 2)
